@@ -148,6 +148,20 @@ impl Cell {
             }
         }
 
+        // Glyph is rendered as a sequence of its fallback characters if glyphs
+        // are not supported, layout must match what `CellWrite::put_cell` is doing.
+        if let CellKind::Glyph(glyph) = &self.kind {
+            if !ctx.has_glyphs() {
+                let mut first_pos = None;
+                for character in glyph.fallback_str().chars() {
+                    let pos = Cell::new_char(self.face, character)
+                        .layout(ctx, max_width, wraps, size, cursor);
+                    first_pos = first_pos.or(pos);
+                }
+                return first_pos;
+            }
+        }
+
         // skip empty cells
         let cell_size = self.size(ctx);
         if cell_size.height == 0 || cell_size.width == 0 {
